@@ -599,6 +599,57 @@ let run_val (text : string) : string =
       "type=" ^ type_text (M.type_of v);
       "eq=" ^ b (M.value_eqb v v) ]
 
+
+(* ---- ERRSHOW: the same list of errors, in the same order, as errshow_list in harness/src/main.rs ---- *)
+let errshow_list () : M.error list =
+  let nan = M.f_of_bits (z_of_u64 0x7ff8000000000000L) and negzero = M.f_of_bits (z_of_u64 0x8000000000000000L)
+  and f25 = M.f_of_bits (z_of_u64 0x4004000000000000L) in
+  let vals =
+    [ M.VInt (z_of_i64 (-3L)); M.VFloat f25; M.VString (s_of "a\"b"); M.VBool true; M.VEmpty;
+      M.VTuple [ M.VInt (z_of_i64 1L); M.VTuple []; M.VString (s_of "x") ]; M.VFloat nan; M.VFloat negzero;
+      M.VInt (z_of_i64 Int64.min_int) ] in
+  let strs = [ ""; "x"; "a\"b\\c"; "\xc3\xa4\n\t"; "\x7f\x01\xc3\xa9" ] in
+  let n = n_of_int in
+  let v i = List.nth vals i in
+  List.concat
+    [ List.map (fun (e, a) -> M.EWrongOperatorArgumentAmount (e, n a)) [ (n 2, 0); (n 0, 1); (n 1, 2); (usize_max, 3) ];
+      List.map (fun (lo, hi, a) -> M.EWrongFunctionArgumentAmount (n lo, hi, n a))
+        [ (1, Some (n 1), 0); (2, Some (n 3), 1); (0, None, 5); (1, None, 0); (3, Some (n 1), 2) ];
+      List.concat_map
+        (fun x ->
+          [ M.EExpectedString x; M.EExpectedInt x; M.EExpectedFloat x; M.EExpectedNumber x; M.EExpectedNumberOrString x;
+            M.EExpectedBoolean x; M.EExpectedTuple x; M.EExpectedEmpty x; M.EExpectedFixedLengthTuple (n 2, x);
+            M.EExpectedFixedLengthTuple (usize_max, x); M.EExpectedRangedLengthTuple (n 1, n 3, x); M.ENegationError x ])
+        vals;
+      [ M.EAppendedToLeafNode; M.EPrecedenceViolation ];
+      List.concat_map
+        (fun s ->
+          [ M.EVariableIdentifierNotFound (s_of s); M.EFunctionIdentifierNotFound (s_of s); M.EIllegalEscapeSequence (s_of s);
+            M.ECustomMessage (s_of s) ])
+        strs;
+      List.map (fun i -> M.ETypeError ([ M.TyString; M.TyInt ], v i)) [ 0; 1; 2 ];
+      [ M.ETypeError ([], M.VEmpty);
+        M.ETypeError ([ M.TyString; M.TyFloat; M.TyInt; M.TyBoolean; M.TyTuple; M.TyEmpty ], M.VInt M.Z0);
+        M.EWrongTypeCombination (M.OAdd, [ M.TyInt; M.TyString ]);
+        M.EWrongTypeCombination (M.OLt, [ M.TyBoolean; M.TyTuple ]);
+        M.EWrongTypeCombination (M.OMod, []);
+        M.EWrongTypeCombination (M.OExp, [ M.TyEmpty ]);
+        M.EWrongTypeCombination (M.ONeg, [ M.TyFloat; M.TyFloat; M.TyFloat ]);
+        M.EUnmatchedLBrace; M.EUnmatchedRBrace; M.EUnmatchedDoubleQuote; M.EMissingOperatorOutsideOfBrace; M.EContextNotMutable;
+        M.EBuiltinFunctionsCannotBeEnabled; M.EBuiltinFunctionsCannotBeDisabled; M.EOutOfBoundsAccess ];
+      List.concat_map
+        (fun (a, b) ->
+          [ M.EAdditionError (v a, v b); M.ESubtractionError (v a, v b); M.EMultiplicationError (v a, v b); M.EDivisionError (v a, v b);
+            M.EModulationError (v a, v b) ])
+        [ (0, 1); (8, 0); (6, 7) ];
+      [ M.EIntFromUsize (n 0); M.EIntFromUsize (n 5); M.EIntFromUsize usize_max ];
+      [ M.EIntIntoUsize (z_of_i64 (-1L)); M.EIntIntoUsize (z_of_i64 Int64.min_int); M.EIntIntoUsize (z_of_i64 7L) ] ]
+
+let run_errshow (k : string) : string =
+  match List.nth_opt (errshow_list ()) (int_of_string k) with
+  | None -> "NA"
+  | Some e -> "E:" ^ hex_of_str (M.error_fmt fmt_oracle e)
+
 let run_case (line : string) : string =
   match split_on '\t' line with
   | id :: kind :: rest -> (
@@ -607,6 +658,7 @@ let run_case (line : string) : string =
           match (kind, rest) with
           | "TOK", [ src ] -> outcome_text (fun ts -> "[" ^ String.concat "," (List.map token_text ts) ^ "]") (M.tokenize (str_of_hex src))
           | "TOK", [] -> outcome_text (fun ts -> "[" ^ String.concat "," (List.map token_text ts) ^ "]") (M.tokenize [])
+          | "ERRSHOW", [ k ] -> run_errshow k
           | "TREE", [ src ] -> outcome_text tree_text (M.build_operator_tree (str_of_hex src))
           | "TREE", [] -> outcome_text tree_text (M.build_operator_tree [])
           | "SCRIPT", [ k; ops ] -> run_script k ops
